@@ -89,6 +89,7 @@ structure Mon where
   ctorDone : Nat → Bool := fun _ => false
   dtorStarted : Nat → Bool := fun _ => false
   dtorDone : Nat → Bool := fun _ => false
+  dtorRetOn : Nat → Option Nat := fun _ => none -- follow-up C14q: logical thread on which the destructor returned
   reqAtReg : Nat → Bool := fun _ => false
   maxCb : Nat := 0
   viol : List String := []
@@ -118,7 +119,7 @@ def monStep (m : Mon) (l : Line) : Mon :=
           addv m s!"callback {arg}: stop had been requested before its constructor was invoked but the constructor returned with {m.begins arg} invocations"
         else m
       else
-        let m := { m with dtorDone := upd m.dtorDone arg true }
+        let m := { m with dtorDone := upd m.dtorDone arg true, dtorRetOn := upd m.dtorRetOn arg (some t) }
         match m.runningOn arg with
         | some u => if u != t then
             addv m s!"callback {arg}: destructor returned on thread {t} while the callback is running on thread {u}"
@@ -136,8 +137,15 @@ def monStep (m : Mon) (l : Line) : Mon :=
       addv m s!"callback {c}: its destructor on thread {t} takes the waiting branch while the callback runs on the same thread"
     else m
   | "stop.fin" =>
-    if l.a == 0 && m.dtorDone c then
+    let m := if l.a == 0 && m.dtorDone c then
       addv m s!"callback {c}: request_stop stored the finished flag into the object after its destructor returned"
+    else m
+    -- follow-up C14q (converse, `C14q_fin_removed_iff_gone` / `C14q_removed_means_own_thread`): the stores are
+    -- skipped only for an object whose destructor has returned, on this thread (inside the invocation)
+    if l.a != 0 && !m.dtorDone c then
+      addv m s!"callback {c}: request_stop skipped the finished store (is_removed set) although its destructor has not returned"
+    else if l.a != 0 && m.dtorRetOn c != some t then
+      addv m s!"callback {c}: request_stop on thread {t} found is_removed set by a destructor that returned on another thread"
     else m
   | "stop.pre_exec" =>
     if m.dtorDone c then addv m s!"callback {c}: request_stop is about to publish is_removed_ after its destructor returned" else m
